@@ -441,6 +441,19 @@ func (reader *DataReader) next() ([]byte, *DataPos, error) {
 				reader.dataFile.zeroUntilEnd(off+int64(reader.offset), fileSize) {
 				return nil, nil, io.EOF
 			}
+			// mmap 预扩展文件断电后, 最后一条记录可能只落盘了前半部分, 其余为 0:
+			// chunk 声明的范围之后(至少 1 字节)直到文件末尾全为 0, 同样视为未写完的记录.
+			// 标准 IO 下未写完的记录之后没有任何字节, 不受此规则影响
+			if reader.tolerateTornTail {
+				end := off + int64(size)
+				if reader.offset+chunkHeaderSize <= size {
+					length := int64(binary.LittleEndian.Uint16(reader.blockBuf[reader.offset+4 : reader.offset+6]))
+					end = min(end, off+int64(reader.offset)+chunkHeaderSize+length)
+				}
+				if end < fileSize && reader.dataFile.zeroUntilEnd(end, fileSize) {
+					return nil, nil, io.EOF
+				}
+			}
 			if err == ErrIncompleteChunk {
 				err = ErrInvalidCRC
 			}
